@@ -20,10 +20,10 @@ type C17Action struct {
 }
 
 type C17Round struct {
-	Mode      string        `json:"mode"`       // temporary | transient | permanent | spec
-	FailAt    int           `json:"fail_at"`    // >=0: that member's Init fails (failed start)
+	Mode      string        `json:"mode"`        // temporary | transient | permanent | spec
+	FailAt    int           `json:"fail_at"`     // >=0: that member's Init fails (failed start)
 	DieAtOnce int           `json:"die_at_once"` // >=0: that member terminates right after its start
-	Clients   [][]C17Action `json:"clients"`    // concurrent clients
+	Clients   [][]C17Action `json:"clients"`     // concurrent clients
 }
 
 type C17Case struct {
@@ -365,11 +365,11 @@ func (c17) Run(e *simkit.Env, cc any) {
 
 		// actions
 		type stopRes struct {
-			kind     string
-			err      error
-			ret      int
-			inv      int
-			took     time.Duration
+			kind string
+			err  error
+			ret  int
+			inv  int
+			took time.Duration
 		}
 		var results []stopRes
 		var exits []string // reasons of member terminations caused by actions
